@@ -45,6 +45,7 @@ MODEL_FIELDS = [1, 5, 9, 13, 17, 21, 25, 29, 31, 33, 35, 37, 41, 45, 49, 53, 57,
                 197, 201, 203, 205, 209, 211, 213, 215, 217, 219, 223, 225, 229, 231]
 WIDTH = {f: (FIELDS[i + 1] - f if i + 1 < len(FIELDS) else 2) for i, f in enumerate(FIELDS)}
 MODES = ['heuristic', 'thorough', 'exhaustive', 'strip']
+_SHARED = [0]
 MODE_COQ = {'heuristic': 'Heuristic', 'thorough': 'Thorough', 'exhaustive': 'Exhaustive', 'strip': 'Strip'}
 model_jobs = []     # (label, term, checker)
 strip_modelled = {}
@@ -593,12 +594,21 @@ def segy_case(label, kind, dims, how_many, clean, blockshape=None, bpv=8, reduce
                 R.violation('corr', inp0, 'heuristic table differs between model and HeaderwordInfo')
         fv, lv = f'({hterm} 0)', f'({hterm} {n - 1})'
         model_jobs.append((inp0, f'(unique_hw segy_fields {fv} {lv}, duplicate_hw segy_fields {fv} {lv}, heur_table segy_fields {fv} {lv})', chk_cls))
+    # every other case converts in all modes through ONE converter object (run() may be called repeatedly: the README does so
+    # for several bit rates): what an earlier run() leaves on the object must not reach a later one
+    _SHARED[0] += 1
+    shared_conv = quiet(SegyConverter, sgy) if _SHARED[0] % 2 == 0 else None
     for mode in MODES:
         p = os.path.join(d, f'out_{mode}.sgz')
         inp = {'case': label, 'kind': kind, 'dims': dims, 'n': n, 'fields': kinds_s, 'mode': mode, 'blockshape': blockshape,
                'reduce_iops': reduce_iops, 'seed': a.seed}
+        if shared_conv is not None:
+            inp['converter'] = 'one converter object for all modes, in the order ' + ' '.join(MODES)
         try:
-            write_segy_sgz(sgy, p, bpv=bpv, blockshape=blockshape, reduce_iops=reduce_iops, header_detection=mode)
+            if shared_conv is not None:
+                quiet(shared_conv.run, p, bits_per_voxel=bpv, blockshape=blockshape, reduce_iops=reduce_iops, header_detection=mode)
+            else:
+                write_segy_sgz(sgy, p, bpv=bpv, blockshape=blockshape, reduce_iops=reduce_iops, header_detection=mode)
             o = observe(p, n, kind, shape, ts)
         except Exception as e:
             import traceback
